@@ -49,6 +49,9 @@ CLASSES = [
     "len_marked", "len_lines", "noarch", "corpus_noarch", "corpus_lines", "mix_marked", "allunknown",
 ]
 
+LEN_CLASSES = ["len99", "len100", "len101", "len150", "len_marked", "len_lines"]
+BASE_CLASSES = [c for c in CLASSES if c not in LEN_CLASSES]
+
 HEAVY = {
     "x86": ["vdivpd %ymm1, %ymm2, %ymm3", "vdivsd %xmm1, %xmm2, %xmm3", "sqrtsd %xmm1, %xmm3",
             "vsqrtpd %ymm1, %ymm3", "divsd %xmm1, %xmm3", "vdivps %ymm1, %ymm2, %ymm3"],
@@ -676,7 +679,7 @@ def plan(tier, seed):
     specs = []
     if tier == "quick":
         for a in models:
-            specs.append({"arch": a, "runs": 18, "mode": "inproc"})
+            specs.append({"arch": a, "runs": 17, "mode": "inproc"})
         specs.append({"arch": None, "runs": 10, "mode": "cli"})
     else:
         for a in models:
@@ -716,8 +719,8 @@ def floors(tier):
         "arch_warning_not_expected": 100 if q else 2000,
         "default_arch_checked:x86": 2 if q else 40,
         "default_arch_checked:aarch64": 2 if q else 40,
-        "length_warning_expected": 6 if q else 120,
-        "over100_but_marked_or_lines": 6 if q else 120,
+        "length_warning_expected": 4 if q else 120,
+        "over100_but_marked_or_lines": 4 if q else 120,
         "config:fixed,ignore": 15 if q else 300,
         "config:fixed,noignore": 15 if q else 300,
         "config:optimal,ignore": 15 if q else 300,
@@ -725,7 +728,7 @@ def floors(tier):
         "set:models": 9,
     }
     for c in CLASSES:
-        f["class:" + c] = 3 if q else 60
+        f["class:" + c] = (2 if c in LEN_CLASSES else 3) if q else 60
     return f
 
 
@@ -747,9 +750,14 @@ def run_shard(spec, R):
             return
         arch = spec["arch"]
         isa = isolate.isa_of(arch)
-        order = list(range(spec["runs"]))
-        for i in order:
-            cls = CLASSES[(i + spec["shard"]) % len(CLASSES)]
+        if spec["tier"] == "quick":
+            # the >=100-line files take the multi-process LCD path (16 forks each): two of the six per shard
+            k = spec["shard"]
+            order = BASE_CLASSES + [LEN_CLASSES[(2 * k) % 6], LEN_CLASSES[(2 * k + 1) % 6]]
+            order += [r.choice(BASE_CLASSES) for _ in range(max(0, spec["runs"] - len(order)))]
+        else:
+            order = [CLASSES[(i + spec["shard"]) % len(CLASSES)] for i in range(spec["runs"])]
+        for i, cls in enumerate(order):
             case = make_case(cls, isa, arch, r, pools)
             execute(case, R, work, mode="inproc", load=(i % 9 == 0))
     finally:
